@@ -342,8 +342,11 @@ func (f *flowNode) normaliseMemPool() {
 		if !ok {
 			continue
 		}
+		// re-entered in id order with the mark that load gave it (load enters them unmarked: a stored tx is vouched
+		// for by its stored flag only)
+		trusted := mp.IsTrusted(f.ctx, *tx.TxHash())
 		mp.RemoveTransaction(*tx.TxHash())
-		mp.AddTransaction(f.ctx, tx, false)
+		mp.AddTransaction(f.ctx, tx, trusted)
 	}
 }
 
@@ -394,6 +397,7 @@ func (f *flowNode) drainOutgoing() []wire.Message {
 func runTxFlow(c *Case) ([]Obs, any) {
 	bu := NewUniverse()
 	tu := NewTxUniverse()
+	tu.VarOuts = true // model TxFlow.nouts
 	tu.Declare(c)
 	store := NewVStore(true)
 	delay := int(cfgInt(c, "delay", 2000))
@@ -871,6 +875,11 @@ func runTxFlow(c *Case) ([]Obs, any) {
 			f.rec.take()
 		}
 		f.drainOutgoing()
+		if len(obs) == 1 && obs[0] == PANIC {
+			// a panic inside the node can leave its locks held (e.g. the tx repository during a block): later ops
+			// would wait for ever
+			wedged = true
+		}
 		result = append(result, obs)
 	}
 	return result, nil
